@@ -905,6 +905,13 @@ impl PacketNumberFilter {
     }
 }
 
+#[cfg(feature = "quinn_rs_quinn_verif")]
+impl PacketNumberFilter {
+    pub(super) fn verif_prev_skipped(&self) -> Option<u64> {
+        self.prev_skipped_packet_number
+    }
+}
+
 /// Ensures we can always fit all our ACKs in a single minimum-MTU packet with room to spare
 const MAX_ACK_BLOCKS: usize = 64;
 
